@@ -17,6 +17,10 @@ def run(ctx, rep):
     rt.rule_frames(rep, lg['logos'], 'ws-default')
     rt.rule_bump(rep, lg['logos'], 'ws-default')           # a callback's bump keeps the span inside the input (or panics)
     rt.rule_is_boundary(rep, lg['logos'], 'ws-default')
+    # tiling to the END of the input: only the partial constructors put a lexer into prefix mode (a full-mode lexer that
+    # turns into a prefix lexer, e.g. through morph, stops at the first state with a continuation and drops the last item)
+    rt.rule_writers(rep, lg['logos'], 'ws-default', ['is_prefix'], 'M-C07a')
+    rt.rule_field_correspondence(rep, lg['logos'], 'ws-default')
     # a read fails only at the end of the source (otherwise the walk would stop early and the rest of the input is never tiled)
     rt.rule_read_bounds(rep, lg['logos'], 'ws-default')
     rt.rule_read_forbid(rep, ctx.mir('logos-forbid')['logos'], 'logos-forbid')
